@@ -46,7 +46,7 @@ REQUIRED_CLASSES = [
     'step_at_tolerance_inside', 'step_just_above_splits', 'long_dx_rescues_step', 'dtype_float64', 'dtype_int64',
     'dtype_datetime64', 'collapse_ok', 'collapse_empty', 'min_n_as_variable', 'long_series', 'real_uuid_label',
     'inphase_keep', 'inphase_drop', 'inphase_dontcare', 'inphase_empty_result', 'inphase_all_kept', 'inphase_int_dtype',
-    'inphase_negative', 'inphase_zero',
+    'inphase_negative', 'inphase_zero', 'coord_all_positive', 'coord_all_negative', 'coord_reaches_or_crosses_zero',
 ]
 CHUNK = 4
 
@@ -98,6 +98,11 @@ def cases(tier):
                         continue  # 6 points: the other positions of the long coordinate step only for float64
                     for h in itertools.product(range(6), repeat=2):
                         out.append({'kind': 'short', 'n': n, 'dtype': dt, 'dxpos': dxpos, 'head': list(h)})
+    # coordinate origin: all-positive (default 3), ending at / crossing zero, all-negative (time relative to a trigger)
+    base = [c for c in out if c['kind'] == 'short' and (c['n'] <= 4 or tier == 'thorough') and c['n'] <= 5]
+    for c in base:
+        for x0 in (-2, -(c['n'] + 4)):
+            out.append({**c, 'x0': x0})
     for name in ('alternating', 'barely_split', 'drift', 'variances', 'staircase'):
         for dt in DTYPES:
             out.append({'kind': 'long', 'series': name, 'dtype': dt})
@@ -243,9 +248,10 @@ def run_short(case, rec):
     n, dt, dxpos, head = case['n'], case['dtype'], case['dxpos'], case['head']
     rec.cls('dtype_' + dt)
     dxs = [2 if i == dxpos else 1 for i in range(n - 1)]
-    xs = [X0]
+    xs = [case.get('x0', X0)]
     for d in dxs:
         xs.append(xs[-1] + d)
+    rec.cls('coord_all_positive' if xs[0] > 0 else 'coord_all_negative' if xs[-1] < 0 else 'coord_reaches_or_crosses_zero')
     coord = make_coord(xs, dt)
     idx = sc.arange('time', n, unit=None)
     for tail in itertools.product(range(6), repeat=n - 1 - len(head)):
